@@ -187,6 +187,8 @@ def apply_steps(v, steps):
                 pass
             else:
                 v = ('as', v, s[1])
+        elif s[0] == 's':
+            v = mk_slice(v, s[1], s[2])
         elif s[0] == 'i':
             if v is not None and v[0] in ('array', 'tuple', 'list') and s[1][0] == 'int' and s[1][1] < len(v[1]):
                 v = v[1][s[1][1]]
@@ -312,6 +314,12 @@ class Interp:
 
         def upd(v, steps):
             s = steps[0]
+            if s[0] == 's':
+                inner = val if len(steps) == 1 else upd(mk_slice(v, s[1], s[2]), steps[1:])
+                L = tlen(v)
+                if s[1][0] == 'int' and s[2][0] == 'int' and L is not None:
+                    return Cat([mk_slice(v, Int(0), s[1]), inner, mk_slice(v, s[2], Int(L))])
+                return App('splice', v, s[1], s[2], inner)
             if len(steps) == 1:
                 if s[0] == 'f':
                     return set_field(v, s[1], s[2], val)
